@@ -70,6 +70,20 @@ func addStubIntrinsics(t map[string]intrinsic) {
 		}
 		return Iface{}
 	}
+	t["github.com/go-jose/go-jose/v4/jwt.ParseSigned"] = func(m *Machine, fr *frame, a []Value) Value {
+		if !m.branch(harnessGlobal(m, "VerifJWTParseOK").(*sym.Term)) {
+			return Tuple{(*Value)(nil), joseErr(m, "go-jose/go-jose: compact JWS format must have three parts")}
+		}
+		tt := m.lookupType("github.com/go-jose/go-jose/v4/jwt", "JSONWebToken")
+		cell := new(Value)
+		*cell = m.zero(tt)
+		hi := fieldIndex(tt, "Headers")
+		(*cell).(Struct)[hi] = Slice{A: []Value{harnessGlobal(m, "VerifJWTHeader")}}
+		return Tuple{cell, Iface{}}
+	}
+	t["(*"+authn+".jwtAuthenticator).fetchJWKS"] = func(m *Machine, fr *frame, a []Value) Value {
+		return Tuple{harnessGlobal(m, "VerifJWKS"), harnessGlobal(m, "VerifJWKSErr")}
+	}
 	t["(*github.com/go-jose/go-jose/v4/jwt.JSONWebToken).UnsafeClaimsWithoutVerification"] = func(m *Machine, fr *frame, a []Value) Value {
 		for _, d := range variadicArgs(a[1]) {
 			di := d.(Iface)
